@@ -405,6 +405,17 @@ def recipes():
     add("v:ft_phase_screen:L0", A + "turbulence.phasescreen.ft_phase_screen", lambda P: phs.ft_phase_screen(0.2, 8, 0.1, 10., 0.01, seed=3))
     add("v:ft_phase_screen:delta", A + "turbulence.phasescreen.ft_phase_screen", lambda P: phs.ft_phase_screen(0.2, 8, 0.2, 25., 0.01, seed=3))
     add("v:ft_phase_screen:seed", A + "turbulence.phasescreen.ft_phase_screen", lambda P: phs.ft_phase_screen(0.2, 8, 0.1, 25., 0.01, seed=4))
+    add("v:ft_phase_screen:seed0", A + "turbulence.phasescreen.ft_phase_screen", lambda P: phs.ft_phase_screen(0.2, 8, 0.1, 25., 0.01, seed=0))
+    add("v:ft_sh_phase_screen:seed0", A + "turbulence.phasescreen.ft_sh_phase_screen", lambda P: phs.ft_sh_phase_screen(0.2, 8, 0.1, 25., 0.01, seed=0))
+    add("v:ft_phase_screen:np_int_seed", A + "turbulence.phasescreen.ft_phase_screen",
+        lambda P: phs.ft_phase_screen(0.2, 8, 0.1, 25., 0.01, seed=numpy.int64(6)))
+
+    def vk_seed0(P):
+        s = ips.PhaseScreenVonKarman(5, 0.1, 0.2, 25., random_seed=0)
+        a = numpy.array(s.scrn)
+        s.add_row()
+        return [a, numpy.array(s.scrn)]
+    add("v:PhaseScreenVonKarman:seed0", A + "turbulence.infinitephasescreen.PhaseScreenVonKarman", vk_seed0)
     add("v:ft_sh_phase_screen:r0", A + "turbulence.phasescreen.ft_sh_phase_screen", lambda P: phs.ft_sh_phase_screen(0.1, 8, 0.1, 25., 0.01, seed=3))
     add("v:ft_sh_phase_screen:L0", A + "turbulence.phasescreen.ft_sh_phase_screen", lambda P: phs.ft_sh_phase_screen(0.2, 8, 0.1, 0.5, 0.01, seed=3))
 
@@ -459,7 +470,18 @@ def recipes():
         m2 = numpy.array(c.make_covariance_matrix())
         r2 = numpy.array(c.make_tomographic_reconstructor(svd_conditioning=0.01))
         return [m, r1, m2, r2]
+
+    def covmat3(P):
+        # two off-axis natural guide stars above elevated layers, the matrix built three times on ONE object:
+        # equal arguments (the object was not touched in between) -> equal results
+        c = sc.CovarianceMatrix(2, [P["mask2"], P["mask4"][:2, :2] * 0 + 1], 1.0, [0.5, 0.5], [0, 0], [[15., -5.], [-20., 8.]],
+                                [5e-7, 6e-7], 2, [3000., 9000.], P["r0s"][:2], [25., 10.], threads=1)
+        ms = [numpy.array(c.make_covariance_matrix()) for _ in range(3)]
+        if not (ms[0].tobytes() == ms[1].tobytes() == ms[2].tobytes()):
+            raise AssertionError("make_covariance_matrix() called again on an untouched object returned a different matrix")
+        return ms
     add("v:CovarianceMatrix:gs_moved", A + "turbulence.slopecovariance.CovarianceMatrix", covmat2)
+    add("v:CovarianceMatrix:rebuilt_3x", A + "turbulence.slopecovariance.CovarianceMatrix", covmat3)
     add("v:create_tomographic_covariance_reconstructor:rc", A + "turbulence.slopecovariance.create_tomographic_covariance_reconstructor",
         lambda P: sc.create_tomographic_covariance_reconstructor(P["cov8"], 2, 0.3))
     add("v:calculate_structure_function:step2", A + "turbulence.slopecovariance.calculate_structure_function",
